@@ -34,18 +34,19 @@ Qed.
 Section Ref.
   Variable defs : list (dparam * bool).
   Let P := ref_prog defs.
-  Variable check : heap -> ann -> value -> bool.
+  Variable check : bool -> heap -> ann -> value -> outcome unit.
 
   Lemma ref_frozen : forall L, eff_frozen P L = true.
   Proof. reflexivity. Qed.
   Lemma ref_sel : forall fs, sel_fields P fs = fs.
   Proof. intro. unfold sel_fields. simpl. apply py_slice_all. Qed.
-  Lemma ref_validate : forall C r,
-    validate_types P check C r =
-    match nearest_deco C with None => raise AttributeErrorC | Some D => check_loop check (dc_fields D) r end.
+  Lemma ref_validate : forall vis C r,
+    validate_types P check vis C r =
+    match nearest_deco C with None => raise AttributeErrorC | Some D => check_loop check vis (dc_fields D) r end.
   Proof. intros. unfold validate_types. simpl. destruct (nearest_deco C); [rewrite ref_sel|]; reflexivity. Qed.
-  Lemma ref_run_new : forall old v,
-    run_pi P (PFNew old) v = bindM (run_pi P old v) (fun _ => bindM (ret tt) (fun _ => bindM v (fun _ => ret tt))).
+  Lemma ref_run_new : forall old v outer (val : bool -> M unit),
+    run_pi P (PFNew old) v outer val =
+    bindM (run_pi P old v (S outer) val) (fun _ => bindM (val (caller_visible v outer)) (fun _ => ret tt)).
   Proof. reflexivity. Qed.
   Lemma ref_install : install_before P = true.
   Proof. reflexivity. Qed.
